@@ -117,7 +117,8 @@ func unescape(s string) string {
 }
 
 func (tc *termcap) setupterm(name string) error {
-	cmd := exec.Command("infocmp", "-1", name)
+	// ("--": the name is a name, also when it begins with a dash)
+	cmd := exec.Command("infocmp", "-1", "--", name)
 	output := &bytes.Buffer{}
 	cmd.Stdout = output
 
